@@ -109,7 +109,7 @@ def judge(scn, obs, world):
                     d = det(how=m.get('how', 'enqueue'))
                     if prev is not None and not shifted and racing_fetch(
                             obs, a, prev, att):
-                        d = {'race': 'fetch-overlaps-completion'}
+                        d = {'race': 'first-attempt-completes-before-write-returns'}
                     v.append({'clause': 'C12/early', 'detail': d,
                               'msg': 'message %d attempt #%d started at '
                                      't=%.6f, %.6f s before its due time '
